@@ -85,6 +85,49 @@ class S(BaseStrategy):
     pass
 
 
+def make_order(strat, c):
+    trade = Trade("1.1", 1, 0, strat)
+    t = c["t"]
+    if t["k"] == "L":
+        ot = LimitOrder(price=t["p"] / 1000, size=t["s"] / 1000, price_ladder_definition=t["ld"][0])
+    elif t["k"] == "LOC":
+        ot = LimitOnCloseOrder(liability=t["l"] / 1000, price=t["p"] / 1000, price_ladder_definition=t["ld"][0])
+    else:
+        ot = MarketOnCloseOrder(liability=t["l"] / 1000)
+    return BetfairOrder(trade, c["side"], ot)
+
+
+def job_validate_bf(j):
+    """a real BetfairClient whose account details are unknown at start-up (the call fails) and arrive later (a worker poll succeeds):
+    orders validated before (documented GBP fall-back) and after (the account's own currency)"""
+    from unittest import mock
+    from flumine.clients.betfairclient import BetfairClient
+    strat = S(market_filter={}, name="v")
+    out = []
+    for g in j["groups"]:
+        ctl = OrderValidation(None)
+        bc = mock.Mock(); bc.lightweight = False; bc.username = "u"
+        bc.account.get_account_details.return_value = None
+        cl = BetfairClient(bc, min_bet_validation=True)
+        cl.update_account_details()
+        res = {"pre": [], "post": []}
+        for phase in ("pre", "post"):
+            if phase == "post":
+                det = mock.Mock(); det.currency_code = g["cur"]
+                bc.account.get_account_details.return_value = det
+                cl.update_account_details()
+            for c in g[phase]:
+                order = make_order(strat, c)
+                order.client = cl
+                try:
+                    ctl(order, OrderPackageType.PLACE); ok = True
+                except ControlError:
+                    ok = False
+                res[phase].append(ok)
+        out.append(res)
+    return out
+
+
 def job_validate(j):
     strat = S(market_filter={}, name="v")
     ctl = OrderValidation(None)
@@ -134,7 +177,7 @@ def job_finest(j):
 
 
 JOBS = {"nearest_mixed": job_nearest_mixed, "nearest_grid": job_nearest_grid, "nearest_points": job_nearest_points, "ticks": job_ticks,
-        "validate": job_validate, "finest": job_finest}
+        "validate": job_validate, "validate_bf": job_validate_bf, "finest": job_finest}
 
 if __name__ == "__main__":
     j = json.load(sys.stdin)
